@@ -4,7 +4,7 @@ import re
 import tempfile
 
 from .. import common, observe, pdbgen
-from ..dets_common import enc_group
+from ..dets_common import enc_group, real_dets, dec_dets
 
 SPEC = dict(
     claim="Lean theorems over exact arithmetic on the determinant-record model: calculate_total_pka establishes pKa = model + both "
@@ -16,7 +16,10 @@ SPEC = dict(
           "The Float total is compared bit-for-bit with the real groups. The identity is evaluated on every group of every "
           "conformation and of the average for real runs under all scoring-relevant settings (titrate-only, chain selection, -d, "
           "remove_penalised_group, shared_determinants, common_charge_centre), and the .pka text is parsed back: rows = determinants, "
-          "table pKa = summary pKa = API value to the printed precision.",
+          "table pKa = summary pKa = API value to the printed precision. The tail of calculate_pka (coupling_effects, removal of the "
+          "determinants towards penalised groups from the titratable groups, recalculation of every total) is replayed through the model: "
+          "the state of every group when coupling_effects is entered plus the labels it returns give, through removeDeterminants and "
+          "calculateTotal, the state when calculate_pka returns, bit-for-bit (remove_then_total is the theorem about that step).",
     note="That every mutation in the real pipeline is followed by a recalculation before results are observable is a property of the "
          "call graph; it is established by evaluating the identity on real runs over all option combinations, not by a theorem about "
          "the whole pipeline. Number formatting is Python's; compared at the printed precision.",
@@ -157,6 +160,64 @@ def gen_inputs(ctx):
     return out
 
 
+def tail_family(ctx):
+    """the tail of ConformationContainer.calculate_pka - coupling_effects, removal of the determinants towards penalised groups,
+    recalculation of every total - replayed through the Lean model (`removeDeterminants` + `calculateTotal`): the state of every
+    group when coupling_effects is entered, and the labels it returns, give the state when calculate_pka returns"""
+    import propka.conformation_container as CC
+    snaps = []
+    orig_ce = CC.ConformationContainer.coupling_effects
+    orig_cp = CC.ConformationContainer.calculate_pka
+
+    def ce(self):
+        before = [(enc_group(g), bool(g.titratable)) for g in self.groups]
+        pen = orig_ce(self)
+        self._verif_tail = (before, list(pen))
+        return pen
+
+    def cp(self, version, options):
+        r = orig_cp(self, version, options)
+        t = getattr(self, "_verif_tail", None)
+        if t is not None and not self.parameters.shared_determinants:
+            snaps.append((self.name, t[0], t[1] if self.parameters.remove_penalised_group else [], [(g.label, g.pka_value, [real_dets(g.determinants[k]) for k in ('sidechain', 'backbone', 'coulomb')]) for g in self.groups]))
+        return r
+    CC.ConformationContainer.coupling_effects = ce
+    CC.ConformationContainer.calculate_pka = cp
+    try:
+        texts = [("nterm-asp", pdbgen.text(pdbgen.nterm_asp_fragment())), ("nterm-asp-hbond", pdbgen.text(pdbgen.nterm_asp_hbond_fragment()))]
+        texts += [(n, t) for n, t in pdbgen.test_files(["conf-alt-AB-mutant"] if ctx.quick() else ["conf-alt-AB-mutant", "3SGB", "4DFR"])]
+        for i in range(3 if ctx.quick() else 30):
+            lines, ids = pdbgen.multichain(ctx.rng, nchains=ctx.rng.randint(1, 2), separation=15.0)
+            texts.append(("gen%d" % i, pdbgen.text(lines)))
+        for name, text in texts:
+            observe.run(text, [], want_text=False)
+    finally:
+        CC.ConformationContainer.coupling_effects = orig_ce
+        CC.ConformationContainer.calculate_pka = orig_cp
+    reqs, reals, npen = [], [], 0
+    for cname, before, pen, after in snaps:
+        labels = ",".join(l.encode("latin1").hex() for l in pen) or "-"
+        npen += len(pen)
+        for (b, titr), (lab, pka, dets) in list(zip(before, after))[:120]:
+            # determinants towards penalised groups are removed from the titratable groups only; every total is recalculated
+            reqs.append("dets remove %s %s" % (labels if titr else "-", b))
+            reals.append("%d|%s" % (common.bits(pka), "|".join(repr(d) for d in dets)))
+    ctx.count("conformations replayed through the tail model", len(snaps))
+    ctx.count("penalised groups in those conformations", npen)
+    if ctx.driver_ok:
+        outs = common.driver_batch(reqs) if reqs else []
+        dis = []
+        for q, r, m in zip(reqs, reals, outs):
+            f = m.split("|")
+            mm = "%s|%s" % (f[0], "|".join(repr(dec_dets(x)) for x in f[1:]))
+            if mm != r:
+                dis.append((q[:80], r[:120], mm[:120]))
+        ctx.oblige("correspondence: Lean removeDeterminants + calculateTotal = the tail of calculate_pka on real runs (%d groups, %d penalised)" % (len(reqs), npen),
+                   not dis, str(dis[:1]))
+    else:
+        ctx.oblige("correspondence: tail model = real code", False, "driver not built")
+
+
 def run(ctx):
     rnd = ctx.rng
     id_bad, tb_bad = [], []
@@ -224,6 +285,7 @@ def run(ctx):
         ctx.oblige("correspondence: row structure of the model = max(1,#sc,#bb,#cb) lines with fillers (64 shapes)", not bad, str(bad[:1]))
     else:
         ctx.oblige("correspondence: determinant model = real code", False, "driver not built")
+    tail_family(ctx)
 
 
 def replay(ctx, rep):
